@@ -169,11 +169,7 @@ Example C15_examples :
   simple g /\ adj g 2 1 /\ 2 <> 1.
 Proof.
   cbv zeta. repeat (split; [vm_compute; reflexivity|]). split; [|split; [left; simpl; tauto|discriminate]].
-  split.
-  - intros b Hb. simpl in Hb. repeat (destruct Hb as [<-|Hb]; [simpl; discriminate|]). destruct Hb.
-  - intros x y. unfold count_joins, joins. cbn [filter fst snd].
-    repeat match goal with |- context [?a =? ?b] => destruct (Nat.eqb_spec a b); subst end;
-      cbn [andb orb length]; try lia; try discriminate.
+  apply simple_b_sound. vm_compute. reflexivity.
 Qed.
 
 Example C15_match_examples :
